@@ -210,9 +210,21 @@ def bounded_checks(tier, seed):
     if r.returncode != 0:
         raise RuntimeError("bounded C11 sweep crashed: " + r.stderr[-1500:])
     d = json.loads(r.stdout.strip().splitlines()[-1])
-    return [{"check": "edit_scripts", "tool": "fixture package (re-exports via __all__, wildcard, private modules, inheritance through a private base) x catalogue of compatible and "
-             "incompatible edits; real loader + find_breaking_changes", "bound": "24 two-version histories + cyclic re-export", "cases": d["cases"], "failing": len(d["bad"]),
-             "wall_s": round(time.time() - t0, 1), "violations": d["bad"]}]
+    out = [{"check": "edit_scripts", "tool": "fixture package (re-exports via __all__, wildcard, private modules, inheritance through a private base) x catalogue of compatible and "
+            "incompatible edits; real loader + find_breaking_changes", "bound": "24 two-version histories + cyclic re-export", "cases": d["cases"], "failing": len(d["bad"]),
+            "wall_s": round(time.time() - t0, 1), "violations": d["bad"]}]
+    t0 = time.time()
+    n, budget = (600, 60) if tier == "quick" else (20000, 600)
+    r = subprocess.run([VENV_PY, "-m", "replay.C11", "random", str(seed), str(n), str(budget)], capture_output=True, text=True, cwd=str(VERIF),
+                       env=dict(os.environ, PYTHONPATH=str(REPO_SRC)), timeout=budget + 300)
+    if r.returncode != 0:
+        raise RuntimeError("bounded C11 random histories crashed: " + r.stderr[-1500:])
+    d = json.loads(r.stdout.strip().splitlines()[-1])
+    out.append({"check": "histories.random", "tool": "generated packages (public / private modules, every module with __all__, re-exports and mere imports in the package __init__, "
+                "classes with bases and members) x one edit at a random public or private location; expectation from the edit's own semantics",
+                "bound": f"<= {n} two-version histories (time box {budget} s): remove / re-kind / change value / remove base / remove or change a member / add an object / add an "
+                         "optional keyword parameter / change a private member", "cases": d["cases"], "failing": len(d["bad"]), "wall_s": round(time.time() - t0, 1), "violations": d["bad"]})
+    return out
 
 
 @contract("C11", "cli.check.exit_code", ["_griffe.cli:check"], floor=3, replay="replay_edit_scripts")
